@@ -62,11 +62,23 @@ fn main() {
             let mut rng = core::Rng::derive(seed, 0x6, k);
             let cfg = gprog::Cfg::default_for(&mut rng);
             let p = gprog::generate(&mut rng, cfg);
+            if args.get(4).and_then(|s| s.parse::<u64>().ok()) == Some(k) {
+                for f in &p.files {
+                    println!("=== {}\n{}", f.0, f.1);
+                }
+            }
             if let gprog::audit::Audit::Rejected(e) = gprog::audit::run(&p, "triage") {
                 rejected += 1;
                 let key: String = e.split("error:").nth(1).unwrap_or(&e).chars().filter(|c| !c.is_ascii_digit()).take(40).collect();
                 if shown.insert(format!("T{}", key)) {
                     println!("TBLGEN REJECTS k={}: {}", k, e);
+                    // the offending source line
+                    let mut it = e.split(':');
+                    if let (Some(path), Some(line)) = (it.next(), it.next().and_then(|l| l.trim().parse::<usize>().ok())) {
+                        if let Some(f) = p.files.iter().find(|q| path.ends_with(q.0.trim_start_matches("/ws/"))) {
+                            println!("    {}", f.1.lines().nth(line.saturating_sub(1)).unwrap_or(""));
+                        }
+                    }
                 }
             }
             let l = ws::load(&p.workspace());
